@@ -191,3 +191,13 @@ package circularbuffer
 //@   ensures [C11 C12] loaded: jarr_kind(bytes, elemof(queue.values)) == 3 ==> len(Seq(queue)) == min(jarr_len(bytes, elemof(queue.values)), queue.maxSize)
 //@     && (forall i :: 0 <= i && i < len(Seq(queue)) ==> Seq(queue)[i] == jarr_at(bytes, jarr_len(bytes, elemof(queue.values)) - len(Seq(queue)) + i, elemof(queue.values)))
 //@   ensures [C12] null: jarr_kind(bytes, elemof(queue.values)) == 2 ==> len(Seq(queue)) == 0
+
+//@ -- String: starts with the container's name; reads only (C15, C18)
+//@ func Queue.String
+//@   requires Inv(queue)
+//@   modifies nothing
+//@   ensures [C15 C17 C18] hasPrefix(result, "CircularBuffer")
+//@   loop 1:
+//@     invariant 0 - 1 <= rangeindex && rangeindex < rangelen && (rangelen == 0 ==> rangeindex == 0 - 1) && rangelen >= 0
+//@     invariant isnil(values) || fresh(arr(values))
+//@     decreases rangelen - rangeindex
